@@ -229,7 +229,7 @@ theorem detach_spec (h : Heap) (s : Handle) (wf : WF h s) :
     ∃ h' s', detach h s = .ok (h', s') ∧ WF h' s' ∧ bits h' s' = bits h s ∧
       (∀ t : Handle, t.buf < h.next → bits h' t = bits h t) := by
   unfold detach
-  by_cases hrc : ((h.buf s.buf).rc == 1) = true
+  by_cases hrc : ((h.buf s.buf).rc == 1 && s.start == 0) = true
   · rw [if_pos hrc]; exact ⟨h, s, rfl, wf, rfl, fun _ _ => rfl⟩
   · rw [if_neg hrc]
     have hfresh : ∀ (bytes : List Nat) (t : Handle), t.buf < h.next →
